@@ -225,7 +225,7 @@ fn label_final_state(h: &History, open: &BTreeMap<String, String>, r: &mut CaseR
         files.insert(d.clone(), t.clone());
     }
     let sources = crate::oal::Sources { main: h.main.clone(), files };
-    if let Ok(Ok(mods)) = crate::engine::catch(|| crate::oal::load(&sources)) {
+    if let Ok(Ok(mods)) = crate::engine::catch(|| crate::oal::load_lenient(&sources)) {
         for l in crate::oal::structural_labels(&mods) {
             r.label(l);
         }
